@@ -434,7 +434,7 @@ def op3(ctx):
 MR_NEXT = "<record::MultiRecord<'_> as std::iter::Iterator>::next"
 
 
-@rule('MI1', ['C10'], floor=2, template='loop-progress')
+@rule('MI1', ['C10', 'C12'], floor=2, template='loop-progress')
 def mi1(ctx):
     """MultiRecord::next makes progress on every Some(Ok) and ends exactly at the end of the buffer."""
     bs = [b for b in ctx.f.bodies.values() if b.name == MR_NEXT]
